@@ -57,6 +57,7 @@ const (
 	lvField          // field of parent
 	lvArrElem        // parent (array value) [idx]
 	lvGlobal
+	lvLocal // a local variable whose address does not escape (ssa.Alloc with Heap == false): its own state variable
 )
 
 type Val struct {
@@ -331,6 +332,8 @@ func (vc *VC) load(s *State, lv *LVal) Term {
 		return app("select", vc.load(s, lv.parent), lv.idx)
 	case lvGlobal:
 		return vc.globalGet(s, lv.global)
+	case lvLocal:
+		return vc.heapGet(s, lv.heap, vc.S.sortOf(lv.typ))
 	}
 	panic("load")
 }
@@ -368,6 +371,8 @@ func (vc *VC) store(s *State, lv *LVal, v Term) {
 		vc.store(s, lv.parent, app("store", old, lv.idx, v))
 	case lvGlobal:
 		vc.globalSet(s, lv.global, v)
+	case lvLocal:
+		vc.heapSet(s, lv.heap, vc.S.sortOf(lv.typ), v)
 	}
 }
 
@@ -434,6 +439,11 @@ func (vc *VC) typeFacts(s *State, t types.Type, e Term, depth int) Term {
 			f = and(f, app("<", slRef(e), vc.allocGet(s)))
 		}
 		return f
+	case *types.Interface:
+		// a value of a non-empty interface type is nil or of a dynamic type that implements it
+		if u.NumMethods() > 0 && !vc.noDefine {
+			return or(app("(_ is dnil)", e), app(vc.implFun(t), e))
+		}
 	case *types.Struct:
 		if depth > 3 {
 			return "true"
@@ -578,7 +588,19 @@ func (vc *VC) addrHeap(a ssa.Value, mod map[string]bool) {
 		}
 	case *ssa.Global:
 		mod[vc.globalName(x)] = true
+	case *ssa.Alloc:
+		if !x.Heap && vc.allocIsLocal(x) {
+			mod[vc.localName(x)] = true
+			return
+		}
+		vc.addrHeapByType(a, mod)
 	default:
+		vc.addrHeapByType(a, mod)
+	}
+}
+
+func (vc *VC) addrHeapByType(a ssa.Value, mod map[string]bool) {
+	{
 		if pt, ok := a.Type().Underlying().(*types.Pointer); ok {
 			if at, ok := pt.Elem().Underlying().(*types.Array); ok {
 				n, _ := vc.memName(at.Elem())
